@@ -741,7 +741,7 @@ def _classify_src(case, m):
 
 
 PARTS = {
-    "C02": dict(coq_props=["Properties_C02_rledict"], files=FILES, rule=RULE_ENC,
+    "C02": dict(coq_props=["Properties_C02_rledict", "Properties_C02_rle_src"], files=FILES, rule=RULE_ENC,
                 generate=_with_src(generate_C02, ("src_rle_enc", "src_rle_size", "src_rle_dec")),
                 oracles=dict({"rle_enc": o_rle_enc_C02, "dict_enc": o_dict_enc_C02, "dict_with": o_dict_with_C02},
                              **SRC_RLE_ORACLES),
@@ -760,7 +760,7 @@ PARTS = {
                               "rle_hostile_hdr": o_rle_hostile_hdr}, **SRC_RLE_ORACLES),
                 classify=_classify_src, search=search, assumptions=ASSUME, trusted_base=TRUST + SRC_RLE_TRUSTED,
                 configs_quick=["pinned", "O0"]),
-    "C14": dict(coq_props=["Properties_C14_rledict"], files=FILES,
+    "C14": dict(coq_props=["Properties_C14_rledict", "Properties_C14_rle_src"], files=FILES,
                 rule="exact-size guard-paged inputs: every truncation of valid RLE / dictionary encodings, single-byte "
                      "mutations, crafted headers (dictionary size above the limit, counts whose product with the index "
                      "width wraps, out-of-range indices, zero-length runs), random bytes of length 0..200; "
